@@ -106,6 +106,12 @@ func genPlan(t *rapid.T, tier string) any {
 			p.Lines = append(p.Lines, Line{Cmd: "stdin", Word: rapid.SampledFrom([]int{0, 1, 4}).Draw(t, "stdinfile")}, mid, Line{Cmd: "exececho", Base: 2}, Line{Cmd: "snap"})
 			continue
 		}
+		if !bgHeavy && rapid.IntRange(0, 19).Draw(t, "lookupchain") == 0 {
+			// a program is looked up on PATH before and after it is installed into a directory on PATH
+			p.Lines = append(p.Lines, Line{Cmd: "pathwork"}, Line{Cmd: "exectool", Neg: rapid.IntRange(0, 3).Draw(t, "chainneg") != 0}, Line{Cmd: "mkbin"}, Line{Cmd: "cptool"},
+				Line{Cmd: "exectool", Neg: rapid.IntRange(0, 3).Draw(t, "chainneg2") != 0}, Line{Cmd: "chmodtool"}, Line{Cmd: "exectool", Neg: rapid.IntRange(0, 3).Draw(t, "chainneg3") == 0}, Line{Cmd: "snap"})
+			continue
+		}
 		l := Line{Cmd: rapid.SampledFrom(mix).Draw(t, "cmd")}
 		for g, ng := 0, rapid.SampledFrom([]int{0, 0, 0, 1, 1, 2}).Draw(t, "nguards"); g < ng; g++ {
 			l.Guards = append(l.Guards, Guard{Cond: rapid.SampledFrom([]string{"ctrue", "cfalse", "linux", "windows", "cflip", "cflip", "ctrue", "cfalse", "cbroken"}).Draw(t, "cond"), Neg: rapid.Bool().Draw(t, "gneg")})
@@ -169,6 +175,7 @@ type evaluator struct {
 	files                 map[string]bool
 	stopped, skipped      bool
 	brokenGuard           bool // the last guardsHold met a condition whose evaluation failed
+	binDir, toolCopied, toolExec bool // the look-up chain: $WORK/bin exists / holds the tool / the tool is executable
 }
 
 func withNL(s string) string {
@@ -222,10 +229,13 @@ func (e *evaluator) unsupported(l Line, cont, failedBefore bool) string {
 		if !any {
 			return "nothing to signal"
 		}
-	case "skip", "stop":
+	case "skip":
 		if len(e.bgs) > 0 {
-			return "status of still-running background processes at skip/stop is not documented"
+			return "status of still-running background processes at skip is not documented"
 		}
+	case "stop":
+		// documented: "stop: mark the script as passing and stop execution" - whatever is still running
+		// in the background is stopped by the clean-up and its status is nobody's business
 	case "execbg":
 		if l.Name != 0 {
 			for _, b := range e.bgs {
@@ -274,6 +284,27 @@ func (e *evaluator) step(l Line, probes *[]string) (ok bool) {
 		e.stdin = ""
 		success := l.Code == 0
 		return success != neg
+	case "pathwork":
+		return !neg
+	case "mkbin":
+		e.binDir = true
+		return !neg
+	case "cptool":
+		if !e.binDir {
+			return neg
+		}
+		e.toolCopied = true
+		return !neg
+	case "chmodtool":
+		if !e.toolCopied {
+			return neg
+		}
+		e.toolExec = true
+		return !neg
+	case "exectool":
+		// found and started only once an executable file of that name is in a PATH directory
+		e.stdout, e.stderr, e.stdin = "", "", ""
+		return e.toolExec != neg
 	case "execbad", "execbadbg":
 		// a file that exists but is not executable: the command cannot start (in the background
 		// variant nothing is left to wait for)
@@ -471,6 +502,16 @@ func render(p *Plan, factor []int) (string, verdict, int) {
 			}
 		case "exececho":
 			text += fmt.Sprintf("exec stub %s code=%d stdin=echo", run, l.Code)
+		case "pathwork":
+			text += "env PATH=$WORK/bin${:}$PATH"
+		case "mkbin":
+			text += "mkdir bin"
+		case "cptool":
+			text += "cp input.txt bin/wtool"
+		case "chmodtool":
+			text += "chmod 755 bin/wtool"
+		case "exectool":
+			text += "exec wtool"
 		case "execbad":
 			text += "exec ./input.txt arg"
 		case "execbadbg":
@@ -738,7 +779,7 @@ func numbered(text string) string {
 var harness = &simcheck.Harness{
 	Property: "C01",
 	Level:    "exploration",
-	Rule: "rapid draws a script of up to 12 lines over the engine's command subset ([cond]/[!cond] guards with a custom Condition and OS conditions, !, a stateful custom condition, a custom condition whose evaluation reports an error (the line is then the offending one), exec foreground / background / named with seeded exit code, output and run time, foreground programs whose descendant keeps the output pipes open for 1.5 s or 40 s after they exit, exec (foreground and background) of a file that cannot be started, a 70 KB line, " +
+	Rule: "rapid draws a script of up to 12 lines over the engine's command subset ([cond]/[!cond] guards with a custom Condition and OS conditions, !, a stateful custom condition, a custom condition whose evaluation reports an error (the line is then the offending one), exec foreground / background / named with seeded exit code, output and run time, foreground programs whose descendant keeps the output pipes open for 1.5 s or 40 s after they exit, exec (foreground and background) of a file that cannot be started, a chain that looks a program up on PATH before and after it is installed and made executable in $WORK/bin, a 70 KB line, " +
 		"wait [name], kill -INT, stdout / stderr with literal patterns and -count, cmp stdout|stderr file, stdin, exists, one- and two-argument exists, stop, skip, an unknown command, probe / snap (exact stdout and stderr as the script sees them) / failing custom commands, phase comments) and ContinueOnError; " +
 		"lines whose meaning would depend on timing or is undocumented in the current state are dropped at rendering; each script runs under 2 (quick) / 3 (thorough) latency assignments with different schedule seeds; " +
 		"non-trivial = the expected verdict is not a plain pass or some probe ran; distinct by the hash of script and decision trace",
@@ -754,7 +795,7 @@ var harness = &simcheck.Harness{
 	Assumptions: []string{
 		"scope: the engine around commands. The file-manipulating built-ins (cd chmod cmpenv cp grep mkdir mv rm symlink unquote unix2dos, cmp on files), regular-expression semantics, RequireExplicitExec / Main registration, RequireUniqueNames and the standalone cmd/testscript binary's exit status are input->output semantics without schedule, clock or fault and are not decided here",
 		"a guard whose Condition callback returns an error holds neither way: the line counts as the first offending one (the run must not be reported as passed on the strength of a guard nobody could evaluate)",
-		"skip/stop with background processes still running, kill of a process that may have exited, and a failing wait under ContinueOnError are not generated (timing dependent or undocumented)",
+		"skip with background processes still running, kill of a process that may have exited, and a failing wait under ContinueOnError are not generated (timing dependent or undocumented)",
 	},
 	RequiredCounters: []string{"runs", "proc_starts", "expected_fail", "expected_skip"},
 }
